@@ -146,6 +146,7 @@ func main() {
 }
 
 func cmdRun(args []string) {
+	startMemWatchdog()
 	fs := flag.NewFlagSet("run", flag.ExitOnError)
 	prefix := fs.String("prefix", "vpH_", "harness name prefix")
 	tier := fs.String("tier", "quick", "quick|thorough")
